@@ -346,6 +346,16 @@ func (g *gen) codeSpan() *inl {
 		g.f("inline:code-variants")
 		return &inl{k: iCode, s: v[1], written: v[0]}
 	}
+	if !g.no("inline:code-variants") && g.multiline() && g.r.Intn(3) == 0 {
+		// the line ending sits right after the opening or right before the closing backticks
+		v := [][2]string{
+			{"`\n\x00foo\n\x00`", "foo"}, {"`\n\x00foo`", " foo"}, {"`foo\n\x00`", "foo "},
+			{"``\n\x00` x\n\x00``", "` x"}, {"`a\n\x00b\n\x00c`", "a b c"}, {"`` a\n\x00``", "a"},
+		}[g.r.Intn(6)]
+		g.f("inline:multiline-code")
+		g.f("inline:multiline-code-at-delimiter")
+		return &inl{k: iCode, s: v[1], written: v[0]}
+	}
 	parts := []string{"x", "a*b*", "<b>", "&amp;", "\\", "[l](u)", "a  b", "\"q\"", "_u_", "f()"}
 	n := g.r.Range(1, 2)
 	var sb strings.Builder
